@@ -1,10 +1,10 @@
 package exec
 
 import (
-	"os"
 	"fmt"
 	"go/token"
 	"go/types"
+	"os"
 	"strings"
 
 	"golang.org/x/tools/go/ssa"
@@ -46,15 +46,15 @@ type Input struct {
 }
 
 type Violation struct {
-	Harness string
-	Kind    string // assert | panic | deadlock | race
-	Msg     string
-	Site    string // signature used for known-finding matching
-	Inputs  []ReplayVal
-	Sched   []int
+	Harness  string
+	Kind     string // assert | panic | deadlock | race
+	Msg      string
+	Site     string // signature used for known-finding matching
+	Inputs   []ReplayVal
+	Sched    []int
 	SchedPos []string
-	Trace   []string
-	PathID  string
+	Trace    []string
+	PathID   string
 }
 
 type ReplayVal struct {
@@ -125,18 +125,19 @@ const (
 )
 
 type Thread struct {
-	ID      int
-	Stack   []*Frame
-	State   threadState
-	Wait    *waitRec
-	granted bool // scheduler already let this thread perform its pending visible op
-	Name    string
-	Died    string // escaped panic message
-	NID     int    // logical id in native schedule replay (-1: goroutine started outside instrumented files)
+	ID         int
+	Stack      []*Frame
+	State      threadState
+	Wait       *waitRec
+	granted    bool // scheduler already let this thread perform its pending visible op
+	Name       string
+	Died       string // escaped panic message
+	NID        int    // logical id in native schedule replay (-1: goroutine started outside instrumented files)
 	opRecorded bool
 	yielded    bool
-	clock   []int  // vector clock
-	HeldMu  map[Ptr]int
+	clock      []int // vector clock
+	HeldMu     map[Ptr]int
+	sleepTimer *ChanObj // pending time.Sleep under the discrete-event clock
 }
 
 func (t *Thread) top() *Frame {
@@ -158,58 +159,58 @@ type HarnessCfg struct {
 }
 
 type Machine struct {
-	P            *Program
-	Sol          *smt.Solver
-	Cfg          *HarnessCfg
-	Ex           *Explorer
-	prefix       []Decision
-	decisions    []Decision
-	threads      []*Thread
-	cur          *Thread
-	globals      map[*ssa.Global]Ptr
-	initState    map[*ssa.Package]int
-	nextObj      int
-	nextVar      int
-	inputs       []Input
-	pc           []*smt.Term
-	Res          *PathResult
-	steps        int
-	syncObjs     map[Ptr]*syncObj
-	threadsOn    bool // preemptive scheduling active
-	timersOn     bool
-	preempts     int
-	sched        []int
-	schedPos []string
-	now          *smt.Term
-	violSeen     map[string]bool
-	strIntern    map[string]Str
-	typeIDs      map[types.Type]int
-	panicDepth   int
-	ghost        map[string]Value
-	trace        []string
-	reflectTypes map[string]types.Type
-	funcIDs      map[*ssa.Function]int
-	errCount     int
-	allocs       []allocRec
-	access       map[raceKey]*accessRec
-	raceDetect    bool
-	noAdvanceNext bool
-	dialCalls     int
-	dialFails     int
-	dialSock      Value
-	timers        []*ChanObj
-	lastMarshal   Value
-	randN         int
-	nextNID       int
-	probeName     string
-	facts         map[string]bool
-	model         map[string]uint64
-	lastWitness   map[string]uint64
+	P              *Program
+	Sol            *smt.Solver
+	Cfg            *HarnessCfg
+	Ex             *Explorer
+	prefix         []Decision
+	decisions      []Decision
+	threads        []*Thread
+	cur            *Thread
+	globals        map[*ssa.Global]Ptr
+	initState      map[*ssa.Package]int
+	nextObj        int
+	nextVar        int
+	inputs         []Input
+	pc             []*smt.Term
+	Res            *PathResult
+	steps          int
+	syncObjs       map[Ptr]*syncObj
+	threadsOn      bool // preemptive scheduling active
+	timersOn       bool
+	preempts       int
+	sched          []int
+	schedPos       []string
+	now            *smt.Term
+	violSeen       map[string]bool
+	strIntern      map[string]Str
+	typeIDs        map[types.Type]int
+	panicDepth     int
+	ghost          map[string]Value
+	trace          []string
+	reflectTypes   map[string]types.Type
+	funcIDs        map[*ssa.Function]int
+	errCount       int
+	allocs         []allocRec
+	access         map[raceKey]*accessRec
+	raceDetect     bool
+	noAdvanceNext  bool
+	dialCalls      int
+	dialFails      int
+	dialSock       Value
+	timers         []*ChanObj
+	lastMarshal    Value
+	randN          int
+	nextNID        int
+	probeName      string
+	facts          map[string]bool
+	model          map[string]uint64
+	lastWitness    map[string]uint64
 	lastWitnessFor *smt.Term
-	witnessFor    map[int]map[string]uint64
-	sleepTokens   int
-	yeastN        int
-	rtypes        map[string]*Opaque
+	witnessFor     map[int]map[string]uint64
+	sleepTokens    int
+	yeastN         int
+	rtypes         map[string]*Opaque
 }
 
 func (m *Machine) end(kind endKind, format string, args ...interface{}) {
